@@ -1,5 +1,7 @@
 """Property -> rules mapping (the per-property decisions of DESIGN.md section 5)."""
 from . import rules_pc as pc
+from . import rules_cf as cf
+from . import rules_sg as sg
 from . import rules_fr as fr
 
 
@@ -229,8 +231,8 @@ PROPS['C11'] = {
              'and parties -- the structural reasons for consistency, for all m, t, PRSS on/off.',
 }
 PROPS['C18'] = {
-    'rules': [R(pa.rule_MK1), R(pa.rule_MK2), R(pa.rule_SS1), R(pc.rule_PC9), R(ss.rule_PR1)],
-    'floors': {'MK1': 40, 'MK2': 12, 'SS1': 60, 'PC9': 14, 'PR1': 12},
+    'rules': [R(pa.rule_MK1), R(pa.rule_MK2), R(pa.rule_MK5), R(pa.rule_SS1), R(pc.rule_PC9), R(ss.rule_PR1), R(sg.rule_TC1)],
+    'floors': {'MK1': 40, 'MK2': 12, 'MK5': 6, 'SS1': 60, 'PC9': 14, 'PR1': 12, 'TC1': 10},
     'explanation': 'For every opening inside library code (runtime, random, statistics, secgroups, seclists, secpols, sectypes) the abstract '
                    'interpreter computes which random sources the opened value depends on: it must be blinded by a field-uniform value, '
                    'statistically masked, a one-time pad of random bits in a binary field, depend on fresh randomness only, or be listed as '
@@ -257,11 +259,12 @@ PROPS['C01'] = {
 }
 PROPS['C04'] = {
     'rules': [R(pa.rule_SS1, scope=['reciprocal', 'np_reciprocal', 'is_zero_public', 'np_is_zero_public', 'to_bits', 'np_to_bits', 'random_bits', 'np_random_bits']),
-              R(pa.rule_NL1, scope=['reciprocal', 'np_reciprocal', 'is_zero_public', 'np_is_zero_public', 'to_bits', 'np_to_bits', 'random_bits', 'np_random_bits'])],
-    'floors': {'SS1': 12, 'NL1': 6},
+              R(pa.rule_NL1, scope=['reciprocal', 'np_reciprocal', 'is_zero_public', 'np_is_zero_public', 'to_bits', 'np_to_bits', 'random_bits', 'np_random_bits']),
+              R(cf.rule_CF2)],
+    'floors': {'SS1': 12, 'NL1': 6, 'CF2': 8},
     'explanation': 'Plumbing clauses of the field protocols: reciprocal, public zero test, bit decomposition (characteristic-2 branch) and random bits '
                    'open their degree-2t products only with threshold 2t or after resharing, on every combination of field size class and PRSS option '
-                   '(SS1); shares are combined linearly only (NL1).',
+                   '(SS1); shares are combined linearly only (NL1); fields with at most m elements are lifted to q**e > m and outputs converted back (CF2).',
     'assumptions': ['field arithmetic is correct (C20)'],
     'level': 'Static abstract interpretation of the field protocol coroutines; the small-field lifting clause is checked under C39.',
 }
@@ -288,8 +291,8 @@ PROPS['C03'] = {
 PROPS['C02'] = {
     'rules': [R(fx.rule_FX3), R(pa.rule_SS1, scope=['mul', 'np_multiply', 'in_prod', 'prod', 'schur_prod', 'scalar_mul', 'matrix_prod', '_cpx_mul', 'np_matmul',
                                                       'np_outer', 'np_convolve', 'gauss', 'trunc', 'np_trunc']),
-              R(pa.rule_MK2, scope=['trunc', 'np_trunc']), R(fx.rule_FX1)],
-    'floors': {'FX3': 15, 'SS1': 25, 'MK2': 2, 'FX1': 60},
+              R(pa.rule_MK2, scope=['trunc', 'np_trunc']), R(pa.rule_MK5), R(fx.rule_FX1), R(sg.rule_TC1)],
+    'floors': {'FX3': 15, 'SS1': 25, 'MK2': 2, 'MK5': 6, 'FX1': 60, 'TC1': 10},
     'explanation': 'Scale clause only: every product of two scale-f values is brought back to scale f exactly once -- by the exact shift when a factor '
                    'is flagged integral, by probabilistic truncation otherwise, removing the same number of bits on both paths (FX3); the product is '
                    'degree-reduced before it is truncated (SS1); the truncation mask has k bits of slack above the l-bit value (MK2), which is what '
@@ -299,9 +302,7 @@ PROPS['C02'] = {
              'step of the right size per product. Numeric error bounds are not claimed.',
 }
 
-from . import rules_cf as cf
 from . import rules_op as op
-from . import rules_sg as sg
 
 PROPS['C17'] = {
     'rules': [R(cf.rule_PF1)],
@@ -315,12 +316,13 @@ PROPS['C17'] = {
              '`% bound`; statistical closeness of non-power-of-two bounds is not decided.',
 }
 PROPS['C20'] = {
-    'rules': [R(op.rule_OP1, modules=('finfields', 'gfpx')), R(op.rule_OP2)],
-    'floors': {'OP1': 15, 'OP2': 20},
+    'rules': [R(op.rule_OP1, modules=('finfields', 'gfpx')), R(op.rule_OP2), R(op.rule_OP5)],
+    'floors': {'OP1': 15, 'OP2': 20, 'OP5': 4},
     'explanation': 'Operator-table clauses: for every class of finfields and gfpx the reflected operator of a non-commutative operation applies the same '
                    'primitive with (other, self) order and is not an alias of the forward one; comparison mirrors swap (OP1). Every in-place '
                    'operator that writes self.value reduces it modulo the field modulus before returning self (or stores the result of the helper the '
-                   'forward operator trusts), the constructors reduce, and binary operators build results through the reducing constructor (OP2).',
+                   'forward operator trusts), the constructors reduce, and binary operators build results through the reducing constructor (OP2). '
+                   'All exponentiation operators hand the exponent unchanged to the powering primitive (OP5).',
     'assumptions': ['the primitives (_sub, _mod, powmod, invert ...) are correct: field axioms are not decided'],
     'level': 'Static sibling-agreement analysis of the operator tables of the field element, field array and polynomial classes. Decides the '
              'statement\'s clauses "in-place and reflected operators agree with binary ones" and "values stay reduced"; not the field axioms.',
